@@ -469,6 +469,47 @@ func subrSeed(t *rapid.T) []byte {
 	return out
 }
 
+// callTreeSeed is a CFF font whose one glyph calls a tree of short global
+// subroutines (depth 1-9, fan-out 2-6) over one long leaf subroutine (1-60
+// KiB of cheap, legal code).  The work a reader does on it must stay in
+// proportion to the size of the data: either it stops at its budget for
+// subroutine code or the tree is small enough to be run completely.
+func callTreeSeed(t *rapid.T) []byte {
+	depth := rapid.IntRange(1, 9).Draw(t, "treeDepth")
+	fan := rapid.IntRange(2, 6).Draw(t, "treeFanOut")
+	leafLen := rapid.SampledFrom([]int{1 << 10, 4 << 10, 10 << 10, 20 << 10, 40 << 10, 60 << 10}).Draw(t, "leafLen")
+	unit := rapid.SampledFrom([][]byte{
+		{139, 12, 18},                 // 0 drop
+		{140, 141, 12, 10, 12, 18},    // 1 2 add drop
+		{139, 12, 27, 12, 18, 12, 18}, // 0 dup drop drop
+		{239, 12, 14, 12, 18},         // 100 neg drop
+	}).Draw(t, "leafUnit")
+	var leaf []byte
+	for len(leaf)+len(unit) < leafLen {
+		leaf = append(leaf, unit...)
+	}
+	leaf = append(leaf, 11) // return
+	spec := refcff.Spec{FontName: "Tree", IndexOffSize: rapid.SampledFrom([]int{0, 0, 2, 4}).Draw(t, "indexOffSize")}
+	// gsubr i (i < depth) calls gsubr i+1 fan times; gsubr depth is the leaf;
+	// the bias for fewer than 1240 subroutines is 107
+	for i := 0; i < depth; i++ {
+		var b []byte
+		for k := 0; k < fan; k++ {
+			b = append(b, byte(i+1-107+139), 29) // callgsubr
+		}
+		spec.GSubrs = append(spec.GSubrs, append(b, 11))
+	}
+	spec.GSubrs = append(spec.GSubrs, leaf)
+	spec.FDs = []refcff.FDSpec{{}}
+	spec.CharStrings = [][]byte{{14}, {byte(0 - 107 + 139), 29, 14}}
+	var out []byte
+	if guard.Try(func() { out = refcff.Build(spec) }) != nil {
+		t.Skip("not assembled")
+	}
+	stats.Label("cff", "seed:call-tree-over-long-leaf")
+	return out
+}
+
 func seedFor(t *rapid.T, name string) []byte {
 	switch name {
 	case "sfnt.Read/ReaderAt", "sfnt.Read/Reader", "header.Read":
@@ -478,6 +519,9 @@ func seedFor(t *rapid.T, name string) []byte {
 		b, _ := fontBytes(t, genfont.KindAny, 24)
 		return b
 	case "cff.Read":
+		if rapid.IntRange(0, 9).Draw(t, "cffCallTreeSeed") == 0 {
+			return callTreeSeed(t)
+		}
 		if rapid.IntRange(0, 2).Draw(t, "cffSubrSeed") == 0 {
 			return subrSeed(t)
 		}
